@@ -54,6 +54,11 @@ ASSUMPTIONS = [
     "the fresh names of the real FormulaManager as the names of the result that do not occur in the input and "
     "matches them one-to-one with the model's",
     "generated binder lists are duplicate-free (the theorems do not need it)",
+    "shannon / selfsub, K only: inputs where a variable bound in the input occurs inside an array-value node "
+    "(default or entry) are outside the modelled fragment -- the models substitute with a light rebuild, the code "
+    "rebuilds array values through FormulaManager.Array (entries equal to the new default are dropped); counted as "
+    "k_skipped_bound_var_in_array_value_*; S (equivalence and quantifier-freeness by the Lean evaluator) still "
+    "runs on them",
     "deep stream (chains nested 1500-5000 levels, default recursion limit): S only, judged by iterative Python "
     "checkers of the shapes and an iterative Python evaluator on 4 assignments; the Lean drivers are recursive and "
     "are not used on these inputs, no K; prenex gets a quantifier only below monotone chains (below n Iff/Ite "
@@ -865,6 +870,18 @@ def generate(ctx, env, n_each):
             pf = r.choice([f, h, g.m.And(f, h), g.m.Or(g.m.Or(f, h), h)])
         cases.append(("conj", pf))
         cases.append(("disj", pf))
+        # literal TRUE / FALSE among the (nested) top-level members of an unsimplified input: the neutral constant
+        # may be dropped, the absorbing one must stay
+        if i % 2 == 0:
+            tt_, ff_ = g.m.TRUE(), g.m.FALSE()
+            k1, k2 = r.choice([tt_, ff_]), r.choice([tt_, ff_])
+            mk = r.choice([g.m.And, g.m.Or])
+            inner = r.choice([g.m.And, g.m.Or])
+            lf = [g.bool_leaf([]), g.atom([])]
+            cf = r.choice([mk(lf[0], k1), mk(k1, lf[1], k2), mk(lf[0], inner(k1, lf[1])), mk(mk(k1, lf[0]), lf[1]),
+                           mk(mk(lf[0], mk(lf[1], k1)), inner(lf[0], k2)), mk(k1, k2), g.m.Not(mk(lf[0], k1))])
+            cases.append(("conj", cf))
+            cases.append(("disj", cf))
         # Boolean binders only: the two QE procedures (and everything else)
         b = g.boolf(r.choice([2, 3, 3]), [], quant="bool", qprob=0.3)
         if not has_quantifier(b):
@@ -1147,6 +1164,12 @@ def process(ctx, env, cases, record=True):
         if proc == "selfsub" and not fragment_ok(proc, f):
             ctx.count("k_skipped_selfsub_nonbool_binder")
             continue
+        if proc in ("selfsub", "shannon") and bound_in_array_value(f):
+            # model boundary: the models of the two eliminators substitute with a light rebuild (substT); the code
+            # rebuilds an array value through FormulaManager.Array, which drops the entries equal to the new default
+            # (Array(p)[3 := False] with p := False).  K does not cover these inputs; S (equivalence, shape) does.
+            ctx.count("k_skipped_bound_var_in_array_value_" + proc)
+            continue
         ctx.count("k_compared")
         krep = dict(rep, lean=a[:3000])
         if res[0] == "err":
@@ -1237,6 +1260,23 @@ def shrink(ctx, env):
             v["what"] = best["what"] + "   [shrunk from: " + v["replay"]["formula"][:200] + "]"
             v["replay"] = dict(best["replay"], shrunk_from=v["replay"]["term"])
             ctx.count("shrunk")
+
+
+def bound_in_array_value(f):
+    """a variable bound somewhere in f occurs inside an array-value node (default or entry)"""
+    bound = bound_symbols(f)
+    if not bound:
+        return False
+    seen, stack = set(), [f]
+    while stack:
+        n = stack.pop()
+        if n.node_id() in seen:
+            continue
+        seen.add(n.node_id())
+        if n.is_array_value() and (set(n.get_free_variables()) & bound):
+            return True
+        stack.extend(n.args())
+    return False
 
 
 def bound_symbols(f):
@@ -1613,6 +1653,11 @@ def probes(env):
               m.ForAll([i], m.Or(sel, a))]:
         for proc in ("nnf", "aig", "prenex", "conj", "disj"):
             out.append((proc, f))
+    for f in [m.TRUE(), m.FALSE(), m.Or(a, m.TRUE()), m.Or(m.TRUE(), a), m.Or(a, m.FALSE()), m.And(a, m.FALSE()),
+              m.And(a, m.TRUE()), m.Or(a, m.Or(b, m.TRUE())), m.And(a, m.And(m.FALSE(), b)), m.Or(m.TRUE(), m.FALSE()),
+              m.And(m.TRUE(), m.FALSE()), m.Or(m.And(a, m.TRUE()), m.FALSE())]:
+        for proc in ("conj", "disj", "nnf", "aig"):
+            out.append((proc, f))
     out.append(("prenex", m.And(m.ForAll([a], m.Or(a, b)), m.Exists([a], m.And(a, c)), a)))
     out.append(("prenex", m.Iff(m.ForAll([a], m.Or(a, b)), c)))
     out.append(("prenex", m.ForAll([a], m.ForAll([a], m.Or(a, b)))))
@@ -1701,6 +1746,12 @@ def run(ctx):
 
 def replay(ctx, rep):
     warnings.simplefilter("ignore")
+    if "replay" not in rep:
+        # a K divergence without a failing input: replay the recorded correspondence cases
+        for kd in rep.get("broken_correspondence", []):
+            if isinstance(kd, dict) and isinstance(kd.get("replay"), dict) and "term" in kd["replay"]:
+                replay(ctx, {"replay": kd["replay"]})
+        return
     r = rep["replay"]
     if r.get("history"):
         return replay_history(ctx, r)
